@@ -27,6 +27,9 @@ RULE = ("Hypothesis draws d in {2,3,50,300,1000(,3000)} or 2..40, cycled mode-si
         "another pool object, an equal-valued copy, a rescaled copy, one new object at two places; inside a run, at its start, at the "
         "ends), the chain shifted by one position, or all-distinct objects; mul_scalar / norm / accuracy in both argument orders and "
         "orthogonalize / truncate, with and without use_stab, each against the reference and against the same call on deep copies. "
+        "Sub-check one_core: ONE core (first / last / second / last but one / middle / drawn) multiplied by 2^s, |s| in 512..990 (down to -900), "
+        "every other core ordinary, rank profiles generic / 1,1,r,..,r,1,1 / rank-1 bond at one end / all 1: orthogonalize (every pivot) and "
+        "truncate with use_stab against the reference and against the same call with that core at an ordinary scale. "
         "Non-trivial = the plain (use_stab=False) computation is not finite-and-normal while the reference value is non-zero; "
         "distinct by SHA-1 of the case.")
 TOLERANCES = ("scalar product: |v 2^p / ref - 1| <= 8 eps sum_k (r1 s1 + n + 2) rho_k, rho_k = ||T_k^abs |v_k|||_2 ||W_k+1||_2 / |<Y1,Y2>| "
@@ -40,7 +43,11 @@ TOLERANCES = ("scalar product: |v 2^p / ref - 1| <= 8 eps sum_k (r1 s1 + n + 2) 
               "shared objects versus deep copies and the two argument orders: bit-identical, else within 3x the rounding bound of the reference "
               "(asserted when that bound is <= 0.1; BLAS kernels may depend on the alignment of a buffer), tensors: relative distance^2 "
               "from three reference Gram values <= 2x its own rounding bound; an exactly zero Gram term enters the reference of accuracy as 0 "
-              "with no exponent")
+              "with no exponent; one_core: p shifted by s and all cores bit-identical when the core is not the start of a sweep (it enters only "
+              "through R @ G / G @ R and core_stab: exact scalings), the tensor is not over-ranked, the Gram bound is <= 1e-3 and the pivot "
+              "maximum is not within 1e-12 of a power of two, else equal tensors within 2x the rounding bound of three reference Gram values; "
+              "truncate: distance^2 to 2^s times the rounding of the ordinary tensor <= (2e(1+1e-3)/(1-e))^2 + 64 (d-1) R eps + rounding, "
+              "and equal within rounding when the ranks agree and the orthogonalised cores are bit-identical by the rule above")
 ASSUMPTIONS = ["d >= 2",
                "every single contraction step is representable: per-core scales s_k in [-480, 480] (pair sums s1_k + s2_k in [-960, 960]; "
                "cores of 2^520 make G1*G2 overflow inside mul_scalar and cores of 2^-520 make it underflow) - the overflow/underflow of "
@@ -49,6 +56,9 @@ ASSUMPTIONS = ["d >= 2",
                "bulk values of modulus < 2^-20 are replaced by 2^-20 in the U(-1,1) family (no subnormal products at the edge of the window)",
                "Y2 of accuracy is not the zero tensor (the documented return for it is the undecided -1 # TODO); Y1 may be zero and the "
                "pair may be exactly orthogonal",
+               "one_core: only orthogonalize / truncate (mul_scalar(Y, Y) / norm / accuracy form G1 * G2 per core, i.e. the squares); the end "
+               "pairs (0, 1) and (d-2, d-1) have |s_a + s_b| <= 980 (R of the unscaled end core times its neighbour is formed before any "
+               "rescaling); s >= -900 (products with the core stay normal numbers)",
                "shared core objects: all repeated cores of one chain have the same shape (r, n, r) and one power-of-two scale per object"]
 
 LO, HI = -480, 480            # per-core log2 scale window
@@ -67,6 +77,14 @@ def mode_sizes(spec):
 def ranks(spec):
     d, n, rp = spec["d"], mode_sizes(spec), spec["rp"]
     r = [1] + [rp[k % len(rp)] for k in range(1, d)] + [1]
+    ends = spec.get("ends")                                         # one_core family: rank-1 bonds next to the ends (1,1,r,...,r,1,1) / everywhere
+    if ends == "all1":
+        r = [1] * (d + 1)
+    elif ends in ("ends1", "left1", "right1"):
+        if ends != "right1":
+            r[1] = 1
+        if ends != "left1":
+            r[d - 1] = 1
     if not spec["over"]:
         for k in range(1, d):
             r[k] = min(r[k], r[k - 1] * n[k - 1])
@@ -807,8 +825,8 @@ def prop_truncate(case, ctx):
     run_truncate(ctx, Y, e)
 
 
-def run_truncate(ctx, Y, e):
-    """truncate(Y, e, use_stab=True): returns (Z, plain result or None)."""
+def run_truncate(ctx, Y, e, info=None):
+    """truncate(Y, e, use_stab=True): returns (Z, plain result or None); `info` (a dict) receives the reference Gram of Y and the bounds."""
     d = len(Y)
     n = oracle.shape_of(Y)
     what = f"truncate(e={e}, use_stab=True)"
@@ -826,6 +844,8 @@ def run_truncate(ctx, Y, e):
     rd = rel_dist2(Z, 0, Y, gy)
     r2, t2, a, b = rd
     R = max(rin)
+    if info is not None:
+        info.update(gy=gy, t2=t2, R=R)
     bound = (e * (1 + 1e-3)) ** 2 + 16 * (d - 1) * R * EPS + 2 * t2
     g.check(r2 <= bound, "result is farther from the input than e * ||Y|| (relative distance^2 from three reference Gram values)",
             dist2=r2, e2=e * e, bound=bound, rounding=t2, zz_over_yy=a, zy_over_yy=b, ranks_in=rin[:10], ranks_out=rout[:10])
@@ -1104,6 +1124,106 @@ def prop_shared(case, ctx):
     del keep
 
 
+# ------------------------------------------------------------------------------------------- one core far outside the window
+# teneva.mul(number, Y) puts the whole factor into core 0, a boundary condition or a weight often sits in the last core: ONE core has
+# entries beyond 2^+-512 (its squares are not representable) while every other core is ordinary.  orthogonalize / truncate never square
+# an entry (LAPACK's QR / RQ use scaled norms) and rescale every core before it is factorised, except the core a sweep starts from,
+# which is factorised as the caller gave it.  The routines that do square the entries (mul_scalar(Y, Y), norm, accuracy: G1 * G2 per
+# core) are outside their domain here, see ASSUMPTIONS; mul_scalar of such a tensor with an oppositely scaled one is the `opposed` family.
+# Oracles: all of run_orth / run_truncate on the tensor itself, and the shift relation against the same tensor with that core at an
+# ordinary scale: the exponent moves by s and nothing else (bit for bit where every operation on the core is an exact scaling).
+
+NB = 980                      # |s_end + s_next| for the two end pairs: R of the unscaled end core times the next core is representable
+EXTREME = st.one_of(st.integers(512, 990), st.integers(512, 530), st.integers(-900, -512), st.integers(-545, -512))
+ONE_POS = ["first", "first", "first", "last", "last", "last", "second", "penult", "mid", "frac"]
+ENDS = ["generic", "ends1", "ends1", "left1", "right1", "all1"]
+
+
+@st.composite
+def one_core_cases(draw, tier):
+    big = [2, 3, 3, 4, 50, 50, 300] if tier == "quick" else [2, 3, 4, 50, 50, 300, 300, 1000, 3000]
+    d = draw(st.one_of(st.sampled_from(big), st.integers(2, 40)))
+    spec = draw(tensor_specs(d))
+    spec["ends"] = draw(st.sampled_from(ENDS))
+    return {"Y": spec, "sc": draw(scale_specs()), "pos": draw(st.sampled_from(ONE_POS)), "jf": draw(st.integers(0, 10 ** 6)),
+            "ext": draw(EXTREME), "t0": draw(st.integers(-8, 8)), "op": draw(st.sampled_from(["orth", "orth", "truncate"])),
+            "k": draw(st.sampled_from(["first", "last", "last", "mid", "frac"])), "kf": draw(st.integers(0, 10 ** 6)),
+            "e": draw(st.sampled_from([1e-8, 1e-5, 1e-3, 0.1]))}
+
+
+def one_core_pair(case):
+    """Y0 (every core ordinary), Y = Y0 with core j multiplied by 2^ext (exact), j."""
+    spec = case["Y"]
+    d = spec["d"]
+    j = {"first": 0, "last": d - 1, "second": min(1, d - 1), "penult": max(d - 2, 0), "mid": d // 2, "frac": case["jf"] % d}[case["pos"]]
+    s0 = np.array(scales(d, case["sc"], LO, HI), dtype=np.int64)
+    s0[j] = case["t0"]
+    sj = case["t0"] + case["ext"]
+    for a, b in ((0, 1), (d - 1, d - 2)):                           # end core a, its neighbour b: the sweep from a forms R_a @ G_b unscaled
+        if j in (a, b):
+            o = b if j == a else a
+            s0[o] = max(LO, -NB - sj, min(HI, NB - sj, int(s0[o])))
+    Y0 = build(spec, s0)
+    return Y0, rescale(Y0, j, case["ext"]), j
+
+
+def bitwise_same(Z, W):
+    return len(Z) == len(W) and all(A.shape == B.shape and A.tobytes() == B.tobytes() for A, B in zip(Z, W))
+
+
+def prop_one_core(case, ctx):
+    Y0, Y, j = one_core_pair(case)
+    spec, sh, op = case["Y"], case["ext"], case["op"]
+    d = len(Y)
+    r = oracle.ranks_of(Y)
+    k = d - 1 if op == "truncate" else {"first": 0, "last": d - 1, "mid": d // 2, "frac": case["kf"] % d}[case["k"]]
+    raw = (j == 0 and k > 0) or (j == d - 1 and k < d - 1)          # the extreme core is factorised as it is (start of a sweep)
+    ctx.label("op:" + op, "core:" + ("first" if j == 0 else "last" if j == d - 1 else "interior"), "huge" if sh > 0 else "tiny",
+              "ends:" + spec["ends"], f"d={d}" if d in (2, 3, 4, 50, 300, 1000, 3000) else "d=other",
+              "sweep_starts_at_the_core" if raw else "core_reached_by_the_sweep")
+    if raw and r[1 if j == 0 else d - 1] == 1:
+        ctx.label("rank1_bond_at_the_starting_core")
+    ctx.nontrivial(True)                                            # the squares of the entries of core j are not representable
+    if op == "orth":
+        Z, p, gy = run_orth(ctx, Y, k)
+        Z0, p0 = ctx.lib(teneva.orthogonalize, Y0, k, True)
+        if Z is None:
+            return
+        what = f"orthogonalize(k={k}, use_stab=True), core {j} times 2^{sh}"
+        if p == p0 + sh and bitwise_same(Z, Z0):
+            ctx.label("shift:bitwise")
+            return
+        pms = [float(np.max(np.abs(Z[k]))), float(np.max(np.abs(Z0[k])))]
+        near = any(m < 1 + 1e-12 or m > 2 - 1e-12 for m in pms)      # floor(log2) of the pivot maximum may round either way there
+        # exact: core j only enters through R @ G_j / G_j @ R and core_stab, which scale exactly (no term below 2^-1022: ext >= -900)
+        exact = not raw and not spec["over"] and gy.tol <= GATE and not near
+        ctx.check(not exact, f"{what}: the exponent must move by s and every core must stay bit-identical", p=p, p_ordinary=p0, s=sh,
+                  pivot_max=pms)
+        same_tensor(ctx, what, Z, p, Z0, p0 + sh)
+        ctx.label("shift:within_bound")
+    else:
+        e = case["e"]
+        info = {}
+        Z, _ = run_truncate(ctx, Y, e, info)
+        Z0 = ctx.lib(teneva.truncate, Y0, e, use_stab=True)
+        what = f"truncate(e={e}, use_stab=True), core {j} times 2^{sh}"
+        n = oracle.shape_of(Y)
+        why = oracle.wellformed(Z0, n)
+        ctx.check(why is None, f"truncate(e={e}, use_stab=True): result not well-formed / finite: {why}")
+        if not info or oracle.wellformed(Z, n) is not None:
+            return
+        rd = rel_dist2(Z0, sh, Z)
+        ctx.check(rd is not None, f"{what}: the result is the zero tensor")
+        r2, t2p, _, _ = rd
+        ctx.check(r2 <= (2 * e * (1 + 1e-3) / (1 - e)) ** 2 + 64 * (d - 1) * info["R"] * EPS + 2 * t2p + 8 * info["t2"],
+                  f"{what}: differs from 2^s times the rounding of the ordinary tensor by more than 2e", dist2=r2, e=e, s=sh)
+        if oracle.ranks_of(Z) == oracle.ranks_of(Z0):
+            ctx.label("same_ranks")
+            if j != 0 and not spec["over"] and info["gy"].tol <= GATE:
+                # the orthogonalised cores are bit-identical (see above), hence the SVD sweep; only the 2^(p/d) factors differ
+                same_tensor(ctx, what, Z, 0, Z0, sh)
+
+
 # ------------------------------------------------------------------------------------------- small cores (underflow side)
 # Before repo commit 79c85eb core_stab left every state below 1e-100 unscaled, so one small step made the following ones underflow
 # (norm = 0 for entries of 2^-200 in three cores).  This sub-check keeps the underflow side densely covered: all totals negative.
@@ -1131,4 +1251,5 @@ SUBCHECKS = [
     Sub("truncate", prop_truncate, strategy=truncate_cases, quick=25, thorough=250),
     Sub("shared", prop_shared, strategy=shared_cases, quick=40, thorough=400),
     Sub("tiny", prop_tiny, strategy=tiny_cases, quick=40, thorough=400),
+    Sub("one_core", prop_one_core, strategy=one_core_cases, quick=16, thorough=300),
 ]
